@@ -28,7 +28,7 @@ MANIFEST = {
     "category": "exploration",
     "text": "Pauses and suspensions land after every loop handle of plans with a non-resumable section at varying "
             "positions; every interruption taking effect inside the section must abort cleanly.",
-    "note": "Corpus plans clearcp/clearcp0/1/2 x all coordinates x 3 request kinds.",
+    "note": "Plans with clear_checkpoint after 0/1/2 points, with rewindable toggles, a second run or checkpoints inside the section; requests at all coordinates (pause, thread pause, suspension, deferred pause) and pause messages issued by the plan at every position.",
     "design_ref": "3 (C10)",
 }
 PLANS_Q = ["clearcp", "clearcp0", "clearcp1", "clearcp2", "clearcp_rw", "clearcp_2runs"]
